@@ -18,6 +18,11 @@ From TskVerif Require Import C01.OrderProofs.
 From TskVerif Require Import C01.PostorderProofs.
 From TskVerif Require Import C01.ViewsProofs.
 From TskVerif Require Import C01.Theorems.
+From TskVerif Require Import C01.ReverseProofs.
+From TskVerif Require Import C01.SitesProofs.
+From TskVerif Require Import C01.MutEdgeProofs.
+From TskVerif Require Import C01.ReverseTop.
+From TskVerif Require Import C01.LevelProofs.
 Import ListNotations.
 Open Scope Z_scope.
 
@@ -313,3 +318,61 @@ Theorem pyviews_correct : forall L ns es Ins Rem q,
        (inorder N t root = Ok out -> exists ls, Forall2 (InO K) starts ls /\ out = concat ls) /\
        (levelorder N t root = Ok out -> BFS K starts out)).
 Proof. exact pyviews_correct_lemma. Qed.
+
+(* (c, reverse) Python _edge_diffs_reverse (direction=REVERSE, without the terminal entry): the
+   right-to-left loop returns one entry per step of the forward sweep of the mirrored table
+   (x -> L - x); entry (left, right) = (L - s_right, L - s_left) is non-empty, its edges_out /
+   edges_in are (in reverse index order) exactly the edges with left = right_k / right = right_k,
+   and replaying the entries from the empty forest never fails and gives parent_at x for every x
+   of every reported interval. *)
+Theorem edge_diffs_reverse_replay : forall L ns es Ins Rem q,
+  valid_edgesb L ns es = true -> index_sorted es Ins Rem -> mk_tseq L ns es Ins Rem = Ok q ->
+  exists steps Ps,
+    edge_diffs_reverse L (q_I q) (q_O q) false = Ok (map (rdiff L) steps) /\
+    (forall s, In s steps ->
+       s_left s < s_right s /\
+       map fst (s_out s) = map fst (filter (fun ie => ileft ie =? L - s_left s) (rev (q_I q))) /\
+       map fst (s_in s) = map fst (filter (fun ie => iright ie =? L - s_left s) (rev (q_O q)))) /\
+    par_steps (repeat NULL (Z.to_nat (zlen ns + 1))) steps = Ok Ps /\
+    Forall2 (fun s P => forall x, L - s_right s <= x < L - s_left s ->
+               forall u, 0 <= u < zlen ns -> get P u = Ok (parent_at es x u)) steps Ps.
+Proof. exact edge_diffs_reverse_replay_lemma. Qed.
+
+(* (per-tree sites) tsk_treeseq_init_trees: for sites sorted by position, the site list of
+   tree k (tree_sites[k], tree_sites_length[k]) consists of exactly the sites whose position lies
+   in [bps[k], bps[k+1]), in id order — whatever the mutations are. *)
+Theorem tree_sites_exact : forall L ns es Ins Rem q,
+  valid_edgesb L ns es = true -> index_sorted es Ins Rem -> mk_tseq L ns es Ins Rem = Ok q ->
+  forall positions muts nem steps Oend ids mes,
+  sorted_by spos (enum_from 0 positions) -> (forall p, In p positions -> 0 <= p) ->
+  sweep L (q_I q) (q_O q) = Ok (steps, Oend) ->
+  init_trees_sites steps nem (enum_from 0 positions) muts = Ok (ids, mes) ->
+  Forall2 (fun s l => l = map fst (filter (in_tree s) (enum_from 0 positions))) steps ids /\
+  (forall k s, nth_error steps k = Some s ->
+     get (q_bps q) (Z.of_nat k) = Ok (s_left s) /\ get (q_bps q) (Z.of_nat k + 1) = Ok (s_right s)).
+Proof. exact tree_sites_exact_lemma. Qed.
+
+(* (mutation.edge) tsk_treeseq_init_trees: every mutation the loop assigns (the mutations are
+   taken in table order, site by site; [consumed] is the assigned prefix) gets
+   edge = node_edge_map[node] = the id of the edge row with child = the mutation's node that
+   covers the position of the mutation's site, or NULL if there is none ([edge_id_spec] reads
+   parent_at (es_id es)).  That every mutation is assigned when the table is sorted by site is
+   not part of this theorem (correspondence). *)
+Theorem mutation_edge_exact : forall L ns es Ins Rem q,
+  valid_edgesb L ns es = true -> index_sorted es Ins Rem -> mk_tseq L ns es Ins Rem = Ok q ->
+  forall positions muts steps Oend ids mes,
+  sorted_by spos (enum_from 0 positions) -> (forall p, In p positions -> 0 <= p) ->
+  (forall m, In m muts -> 0 <= snd m < zlen ns) ->
+  sweep L (q_I q) (q_O q) = Ok (steps, Oend) ->
+  init_trees_sites steps (repeat NULL (length ns)) (enum_from 0 positions) muts = Ok (ids, mes) ->
+  exists consumed rest, muts = consumed ++ rest /\
+    Forall2 (fun m e => exists pos, In (fst m, pos) (enum_from 0 positions) /\
+                                    e = parent_at (es_id es) pos (snd m)) consumed mes.
+Proof. exact mutation_edge_exact_lemma. Qed.
+
+(* (levelorder depth order) tag every queue entry of the breadth-first algorithm [BFS] with its
+   depth (start nodes 0, a child one more than the node it was appended for): the output of
+   levelorder (which is a [BFS] run by pyviews_correct) lists the nodes in non-decreasing depth. *)
+Theorem levelorder_depth_sorted : forall K starts out, BFS K starts out ->
+  exists out2, BFS2 K (map (fun v => (v, 0)) starts) out2 /\ map fst out2 = out /\ nondecr (map snd out2).
+Proof. exact levelorder_depth_sorted_lemma. Qed.
